@@ -40,6 +40,8 @@ struct Stats {
     samples: Vec<Value>,
     allowed: u64,
     seen: u64,
+    flags: Vec<Value>,
+    n_flags: u64,
 }
 
 fn feat(s: &mut Stats, k: &str) {
@@ -124,6 +126,14 @@ fn replay_line(cfg: &Cfg, idx: u64, v: &Value, s: &mut Stats) {
                     }
                     Some(i) => {
                         seen.insert(i);
+                        if outs[i]["f3"] == json!(true) {
+                            // the code's outcome is one the specification allows with FollowF3 = TRUE, and that outcome breaks C12_OnGrid
+                            s.n_flags += 1;
+                            if s.flags.len() < 4 {
+                                s.flags.push(json!({"spec_flag": "F3", "what": "the code's outcome is an outcome of the specification with FollowF3 = TRUE, and that outcome breaks C12_OnGrid",
+                                    "path": path, "seed": seed, "cfg": {"kind": cfg.kind, "levels": cfg.levels, "ticks": cfg.ticks, "step": cfg.step}}));
+                            }
+                        }
                         // hook: the reported schedule must be one whose specified outcome is this outcome
                         let ok = outs.iter().any(|o| o["sched"] == Value::Array(sched.clone()) && first_diff(&o["exp"], &got, "").is_none());
                         if ok { None } else {
@@ -232,12 +242,14 @@ fn main() {
     for h in handles {
         let s = h.join().expect("worker");
         tot.lines += s.lines; tot.runs += s.runs; tot.ops += s.ops; tot.n_mismatch += s.n_mismatch;
-        tot.allowed += s.allowed; tot.seen += s.seen;
+        tot.allowed += s.allowed; tot.seen += s.seen; tot.n_flags += s.n_flags;
+        for x in s.flags { if tot.flags.len() < 4 { tot.flags.push(x) } }
         for m in s.mismatches { if tot.mismatches.iter().filter(|x| x["offgrid_modify"] == m["offgrid_modify"]).count() < 8 { tot.mismatches.push(m) } }
         for (k, v) in s.feats { *tot.feats.entry(k).or_insert(0) += v }
         for x in s.samples { if tot.samples.len() < 2 { tot.samples.push(x) } }
     }
     println!("{}", json!({"lines": tot.lines, "ops": tot.ops, "seeds_run": tot.runs, "n_mismatch": tot.n_mismatch, "mismatches": tot.mismatches,
         "features": tot.feats, "samples": tot.samples, "outcome_sets": tot.lines, "allowed_outcomes": tot.allowed,
-        "distinct_outcomes_seen": tot.seen, "tlc_output": tail}));
+        "distinct_outcomes_seen": tot.seen, "tlc_output": tail,
+        "spec_flags": tot.flags, "n_spec_flags": tot.n_flags}));
 }
